@@ -33,6 +33,8 @@ class Versions:
     def __init__(self, ctx, k):
         self.ctx, self.k, self.v, self.vals = ctx, k, 0, {}
         self.own_reads = {"stat": [], "status": [], "smaps": []}
+        self.read_by = {"stat": [], "status": [], "smaps": []}      # which thread issued each of those reads (scheduler harness)
+        self.who = lambda: None
         self.holder = {}
 
     def val(self, field):
@@ -60,6 +62,7 @@ class Versions:
             while fr is not None:       # a read counts for the block iff it is made by p._proc's own source function
                 if fr.f_code.co_name in ("_parse_stat_file", "_read_status_file", "_read_smaps_file") and fr.f_locals.get("self") is self.holder.get("proc"):
                     self.own_reads[src].append(self.v)
+                    self.read_by[src].append(self.who())
                     break
                 fr = fr.f_back
             return render()
@@ -216,9 +219,12 @@ def as_dict(ctx, kind):
         ctx.prove(not hasattr(p, "_cache") and not hasattr(p._proc, "_cache"), "cache-gone-after-exit")
 
 
-@harness("C16.threads", quick=[dict(P=1, b="cpu_times"), dict(P=1, b="num_threads"), dict(P=2, b="cpu_times", small=True)],
-         thorough=[dict(P=2, b=m) for m in ("cpu_times", "num_threads", "ppid", "memory_full_info")] + [dict(P=3, b=m, small=True) for m in ("cpu_times", "num_threads")], timeout_ms=5000)
-def threads(ctx, P, b, small=False):
+@harness("C16.threads", quick=[dict(P=1, b="cpu_times"), dict(P=1, b="num_threads"), dict(P=2, b="cpu_times", small=True), dict(P=1, b="num_threads", small=True, b_block=True)],
+         thorough=[dict(P=2, b=m) for m in ("cpu_times", "num_threads", "ppid", "memory_full_info")] + [dict(P=3, b=m, small=True) for m in ("cpu_times", "num_threads")]
+         + [dict(P=2, b=m, small=True, b_block=True) for m in ("cpu_times", "num_threads")], timeout_ms=5000)
+def threads(ctx, P, b, small=False, b_block=False):
+    """b_block: thread B uses a oneshot() block of its own (two calls of the same method inside it): within B's block the source is
+    read at most once by B, whatever A's block does meanwhile"""
     """a thread using oneshot() interleaved (source-line granularity, at most P pre-emptions) with a thread calling a plain
     method on the same object: no spurious error, every value is the record's value"""
     from psv import sched
@@ -242,7 +248,16 @@ def threads(ctx, P, b, small=False):
                 return (p.cpu_times(), p.num_threads(), p.uids())
 
         def B():
+            if b_block:
+                with p.oneshot():
+                    n0 = sum(1 for t in V.read_by[METHODS[b]] if t == 1)
+                    r = (getattr(p, b)(), getattr(p, b)())
+                    breads.append(sum(1 for t in V.read_by[METHODS[b]] if t == 1) - n0)
+                return r
             return (getattr(p, b)(),) if small else (getattr(p, b)(), getattr(p, b)())
+
+        breads = []
+        V.who = lambda: S.current
 
         res = S.run([A, B])
     for i in (0, 1):
@@ -256,4 +271,35 @@ def threads(ctx, P, b, small=False):
     if res[1][0] == "ok":
         for r in res[1][1]:
             V.check_value(ctx, b, r, 0, "threads-values-valid")
+    if b_block and breads:
+        ctx.prove(breads[0] <= 1, "each-source-read-at-most-once-per-block", detail=f"thread B read its source {breads[0]} times inside its own block; pre-emptions {S.trace}")
     ctx.prove(not hasattr(p, "_cache") and not hasattr(p._proc, "_cache"), "cache-gone-after-exit")
+
+
+@harness("C16.zombie_mid_block")
+def zombie_mid_block(ctx):
+    """a process that exits (and stays a zombie) in the middle of a oneshot() block / while as_dict() is collecting: the methods whose
+    source is NOT one of the block's cached records (cmdline, exe, cwd ...) answer for the process as it is now -- ZombieProcess, or
+    ad_value in as_dict() -- while the cached records may keep the values they had when first read"""
+    k = simk.Kernel(ctx)
+    simk.system_files(k)
+    simk.full_process(k, P)
+    warm = ctx.choice("asked_before", ["status", "name", "ppid", "cpu_times", None])
+    how = ctx.choice("how", ["cmdline()", "as_dict"])
+    with k.installed():
+        p = psutil.Process(P)
+        with p.oneshot():
+            if warm:
+                getattr(p, warm)()
+            simk.full_process(k, P, zombie=True)          # exits, not reaped: state Z, empty cmdline, exe/cwd links gone
+            if how == "cmdline()":
+                try:
+                    r, exc = p.cmdline(), None
+                except psutil.ZombieProcess as e:
+                    r, exc = None, e
+                ctx.prove(exc is not None and exc.pid == P, "zombie-mid-block", detail=f"asked before: {warm}; cmdline() -> {r!r}")
+            else:
+                d = ctx.guard("zombie-mid-block", p.as_dict, attrs=["cmdline", "status", "name"], ad_value="AD")
+                ctx.prove(d["cmdline"] == "AD" and d["name"] == "cat" and d["status"] in ("zombie", "sleeping"), "zombie-mid-block", detail=f"asked before: {warm}; as_dict -> {d}")
+        # after the block everything is fresh
+        ctx.prove(p.status() == "zombie", "fresh-read-outside-block", detail="status() after the block")
